@@ -2,6 +2,7 @@ import RoaringModel.Lemmas.CIterLemmas
 import RoaringModel.Lemmas.IterRangeLemmas
 import RoaringModel.Lemmas.IterSortedLemmas
 import RoaringModel.Lemmas.SpecIterLemmas
+import RoaringModel.Inv
 /-!
 # C03 — 32-bit iteration is an exact ascending double-ended cursor (property theorems)
 
@@ -33,6 +34,23 @@ theorem C03_init (b : Bitmap) (h : BitmapOK b) :
     IterWF (Bitmap.iter b) ∧ (Bitmap.iter b).rem = Bitmap.elems b := by
   obtain ⟨h1, h2⟩ := Iter.iter_spec b h.1
   exact ⟨⟨h1, by rw [h2]; exact C03_elems_u32 b h⟩, h2⟩
+
+/-- **the shared well-formedness implies the local hypothesis.** `Bitmap.WF` (`RoaringModel/Inv.lean`: the invariant
+    every C01/C02/C09/… producer theorem establishes) contains everything `BitmapOK` asks for; the 4096 threshold and
+    non-emptiness of chunks are simply not needed for iteration. -/
+theorem C03_BitmapOK_of_WF (b : Bitmap) (h : b.WF) : BitmapOK b := by
+  refine ⟨⟨h.1, ?_⟩, fun c hc => (h.2 c hc).1⟩
+  intro c hc
+  have hs : c.store.WF := (h.2 c hc).2
+  unfold Container.IterOK
+  cases hst : c.store with
+  | array v => rw [hst] at hs; exact ⟨hs.1.1, hs.1.2⟩
+  | bitmap bs => rw [hst] at hs; exact ⟨hs.1.length, hs.1.words, hs.1.len⟩
+
+/-- `C03_init` for every well-formed value (every value reachable through the public API: C04 producer table) -/
+theorem C03_init_WF (b : Bitmap) (h : b.WF) :
+    IterWF (Bitmap.iter b) ∧ (Bitmap.iter b).rem = Bitmap.elems b :=
+  C03_init b (C03_BitmapOK_of_WF b h)
 
 /-- the bounds of a `RangeBounds<u32>` carry `u32` values -/
 def BoundU32 : Bound → Prop
@@ -76,6 +94,14 @@ theorem C03_range (b : Bitmap) (h : BitmapOK b) (lo hi : Bound) (hlo : BoundU32 
       intro x hx
       rw [key.2, hc] at hx
       exact hU x (List.mem_filter.mp hx).1
+
+/-- `C03_range` for every well-formed value -/
+theorem C03_range_WF (b : Bitmap) (h : b.WF) (lo hi : Bound) (hlo : BoundU32 lo) (hhi : BoundU32 hi) :
+    (Bitmap.range b lo hi = none ↔ Spec.range (Bitmap.elems b) lo hi = none) ∧
+    (∀ it, Bitmap.range b lo hi = some it →
+      IterWF it ∧ Spec.range (Bitmap.elems b) lo hi = some it.rem ∧
+      it.rem = (Bitmap.elems b).filter (fun x => decide (Bound.mem lo hi x))) :=
+  C03_range b (C03_BitmapOK_of_WF b h) lo hi hlo hhi
 
 /-- exactness of `size_hint` needs `len ≤ usize::MAX`: a `u32` cursor has at most `2^32` elements -/
 theorem C03_len_bound (it : Iter) (h : IterWF it) : it.rem.length ≤ usizeMax := by
@@ -162,6 +188,11 @@ theorem C03_history_iter (b : Bitmap) (h : BitmapOK b) (ops : List ItOp) :
   obtain ⟨h1, h2⟩ := C03_init b h
   rw [← h2]; exact (C03_history ops _ h1).2.2
 
+/-- `C03_history_iter` for every well-formed value -/
+theorem C03_history_iter_WF (b : Bitmap) (h : b.WF) (ops : List ItOp) :
+    (Iter.run (Bitmap.iter b) ops).2 = (Cursor.run (Bitmap.elems b) ops).2 :=
+  C03_history_iter b (C03_BitmapOK_of_WF b h) ops
+
 /-- `fold` / `rfold` for *every* closure and initial value (the step theorem observes them through the
     recording closure) -/
 theorem C03_fold_any {β : Type} (it : Iter) (h : IterWF it) (init : β) (f : β → Nat → β) :
@@ -238,6 +269,22 @@ private theorem exB_ok : BitmapOK exB := by
       decide
 
 example : IterWF (Bitmap.iter exB) := (C03_init exB exB_ok).1
+/-- the same value is well-formed in the shared sense (`Bitmap.WF`), so the `_WF` corollaries are not vacuous -/
+private theorem exB_wf : exB.WF := by
+  refine ⟨by decide, ?_⟩
+  intro c hc
+  simp only [exB, List.mem_cons, List.not_mem_nil, or_false] at hc
+  rcases hc with rfl | rfl
+  · exact ⟨by decide, ⟨by simp [Sorted], by decide⟩, by decide, by decide⟩
+  · refine ⟨by decide, ⟨List.length_replicate, ?_, ?_⟩, by decide⟩
+    · intro w hw
+      simp only [BStore.full, List.mem_replicate] at hw
+      rw [hw.2]; decide
+    · show 65536 = BStore.popSum (List.replicate 1024 wMax)
+      rw [popSum_replicate, popcount_eq_length_bitPos wMax (by decide)]
+      decide
+
+example : IterWF (Bitmap.iter exB) := (C03_init_WF exB exB_wf).1
 example : ∃ it, IterWF it ∧ it.rem ≠ [] := by
   refine ⟨Bitmap.iter exB, (C03_init exB exB_ok).1, ?_⟩
   rw [(C03_init exB exB_ok).2]
